@@ -11,7 +11,11 @@ R-C17-4: on every path of initializeLineSplitting (explicit radius below/inside/
 R-C17-5: coarsening reads 2*i of the fine arrays with sizes (nr+1)/2 and ntheta/2+1; spacings are first differences.
 R-C17-6: every non-default constructor validates, computes distances and splits, in that order, after the last write
          of the coordinate arrays.
-Not decided: agreement of neighbour/spacing queries with coordinates as floating-point values.
+R-C17-7: with symbolic coordinates r_i, theta_j (exact DAG values): initializeDistances stores first differences;
+         radialSpacing / angularSpacing (any unwrapped index) / adjacentNeighborDistances return the coordinate
+         differences (periodic in theta, 0 beyond the radial ends); adjacentNeighborsOf / diagonalNeighborsOf return
+         index(i±1, wrap(j±1)) or -1; polarCoordinates returns (r_i, theta_j).
+Not decided: the same statements after floating-point rounding (they are exact differences of two doubles).
 """
 import itertools
 
@@ -64,6 +68,105 @@ class GridDomain(ConcDomain):
             if isinstance(a, PtrInto) and isinstance(b, PtrInto):
                 return (a.off != b.off) if e["op"] == "!=" else (a.off == b.off)
         return ConcDomain.call(self, e, fr)
+
+
+def geometry_queries(ck, tier):
+    """R-C17-7: spacing and neighbour queries against the coordinate arrays, coordinates symbolic (exact DAG values)"""
+    from gmg import dag, opsdom, symdom
+    from gmg.symdom import SArr
+    ck.rule("R-C17-7", "initializeDistances / radialSpacing / angularSpacing / adjacentNeighborDistances / polarCoordinates equal the coordinate differences (periodic in theta, 0 beyond the radial ends); adjacent/diagonal neighbour indices equal index(i±1, wrap(j±1)) or -1", floor=5)
+    prog = ir.load(units=UNITS, witness=False)
+    for qn in ("PolarGrid::initializeDistances", "PolarGrid::adjacentNeighborDistances", "PolarGrid::adjacentNeighborsOf", "PolarGrid::diagonalNeighborsOf",
+               "PolarGrid::polarCoordinates", "PolarGrid::radialSpacing", "PolarGrid::angularSpacing"):
+        ck.analysed(prog.fn(qn))
+    mi_ctor = [f for f in prog.fns("MultiIndex::MultiIndex") if len(f["params"]) == 2 and all(p["t"].replace("const ", "") == "int" for p in f["params"])]
+    if len(mi_ctor) != 1:
+        raise ir.AnalysisBroken("anchor vanished: MultiIndex(int,int)")
+    shapes7 = [(2, 4, 1), (3, 3, 0), (4, 6, 2), (5, 8, 5), (5, 4, 3)] if tier == "quick" else [(nr, nt, nsc) for nr in (2, 3, 4, 5, 7) for nt in (3, 4, 6, 8) for nsc in sorted(set((0, 1, nr // 2, nr)))]
+    site = ir.locstr(prog.fn("PolarGrid::adjacentNeighborDistances"))
+    for nr, nt, nsc in shapes7:
+        key = "queries nr=%d ntheta=%d nsc=%d" % (nr, nt, nsc)
+        ck.instance("R-C17-7", key)
+        dom = opsdom.OpsDomain(prog, record=False)
+        it = Interp(prog, dom)
+        g = symdom.sym_grid(nr, nt, nsc)
+        R = [dag.atom("r_%d" % i) for i in range(nr)]
+        T = [dag.atom("th_%d" % j) for j in range(nt + 1)]
+        g.f["radial_spacings_"].set(SArr("radial_spacings_", 0))
+        g.f["angular_spacings_"].set(SArr("angular_spacings_", 0))
+        probs = []
+        it.call_function(prog.fn("PolarGrid::initializeDistances"), g, [])
+        rs, ks = g.f["radial_spacings_"].get(), g.f["angular_spacings_"].get()
+        if rs.length != nr - 1 or ks.length != nt:
+            probs.append("spacing arrays have lengths %s and %s, expected %d and %d" % (rs.length, ks.length, nr - 1, nt))
+        else:
+            for i in range(nr - 1):
+                if not dag.equal(dag.lift(rs.sym.get(i, dag.atom("unset"))), dag.sub(R[i + 1], R[i])):
+                    probs.append("radial_spacings_[%d] is %s, not r_%d - r_%d" % (i, dag.show(dag.lift(rs.sym.get(i, dag.atom("unset"))), 40), i + 1, i))
+                    break
+            for j in range(nt):
+                if not dag.equal(dag.lift(ks.sym.get(j, dag.atom("unset"))), dag.sub(T[j + 1], T[j])):
+                    probs.append("angular_spacings_[%d] is %s, not theta_%d - theta_%d" % (j, dag.show(dag.lift(ks.sym.get(j, dag.atom("unset"))), 40), j + 1, j))
+                    break
+        dk = lambda j: dag.sub(T[(j % nt) + 1], T[j % nt])  # periodic angular distance from node j to node j+1
+        if not probs:
+            for i in range(nr - 1):
+                v = it.call_function(prog.fn("PolarGrid::radialSpacing"), g, [i])
+                v = v.get() if isinstance(v, Cell) else v
+                if not dag.equal(dag.lift(v), dag.sub(R[i + 1], R[i])):
+                    probs.append("radialSpacing(%d) is %s" % (i, dag.show(dag.lift(v), 40)))
+                    break
+            for j in range(-nt, 2 * nt + 1):
+                v = it.call_function(prog.fn("PolarGrid::angularSpacing"), g, [j])
+                v = v.get() if isinstance(v, Cell) else v
+                if not dag.equal(dag.lift(v), dk(j)):
+                    probs.append("angularSpacing(%d) is %s, expected the distance from angle %d to its successor" % (j, dag.show(dag.lift(v), 40), j % nt))
+                    break
+        def idx(i, j):
+            v = it.call_function(prog.fn("PolarGrid::index", 2), g, [i, j])
+            return v
+        if not probs:
+            for i in range(nr):
+                for j in range(nt):
+                    mi = dom.new_object("MultiIndex", None, None)
+                    it.call_function(mi_ctor[0], mi, [i, j])
+                    out = dom.default_value("std::array<std::pair<double, double>, space_dimension>", {"name": "nd"}, None)
+                    it.call_function(prog.fn("PolarGrid::adjacentNeighborDistances"), g, [Cell(mi), Cell(out)])
+                    got = [[dag.lift(out.objs[d][k].get()) for k in ("first", "second")] for d in range(2)]
+                    want = [[dag.sub(R[i], R[i - 1]) if i > 0 else dag.ZERO, dag.sub(R[i + 1], R[i]) if i < nr - 1 else dag.ZERO], [dk(j - 1), dk(j)]]
+                    for d in range(2):
+                        for k in range(2):
+                            if not dag.equal(got[d][k], want[d][k]):
+                                probs.append("adjacentNeighborDistances(%d,%d)[%d].%s is %s, the coordinates give %s" % (i, j, d, ("first", "second")[k], dag.show(got[d][k], 40), dag.show(want[d][k], 40)))
+                    nb = dom.default_value("std::array<std::pair<int, int>, space_dimension>", {"name": "nb"}, None)
+                    it.call_function(prog.fn("PolarGrid::adjacentNeighborsOf"), g, [Cell(mi), Cell(nb)])
+                    gotn = [[nb.objs[d][k].get() for k in ("first", "second")] for d in range(2)]
+                    wantn = [[idx(i - 1, j) if i > 0 else -1, idx(i + 1, j) if i < nr - 1 else -1], [idx(i, (j - 1) % nt), idx(i, (j + 1) % nt)]]
+                    if gotn != wantn:
+                        probs.append("adjacentNeighborsOf(%d,%d) is %s, expected %s" % (i, j, gotn, wantn))
+                    it.call_function(prog.fn("PolarGrid::diagonalNeighborsOf"), g, [Cell(mi), Cell(nb)])
+                    gotn = [[nb.objs[d][k].get() for k in ("first", "second")] for d in range(2)]
+                    wantn = [[idx(i - 1, (j - 1) % nt) if i > 0 else -1, idx(i + 1, (j - 1) % nt) if i < nr - 1 else -1],
+                             [idx(i - 1, (j + 1) % nt) if i > 0 else -1, idx(i + 1, (j + 1) % nt) if i < nr - 1 else -1]]
+                    if gotn != wantn:
+                        probs.append("diagonalNeighborsOf(%d,%d) is %s, expected %s (bottom-left, bottom-right, top-left, top-right)" % (i, j, gotn, wantn))
+                    pt = it.call_function(prog.fn("PolarGrid::polarCoordinates"), g, [Cell(mi)])
+                    if isinstance(pt, Obj):
+                        d_ = pt.f.get("data_")
+                        arr = d_.get() if d_ is not None else None
+                        pc = [dag.lift(arr.sym.get(k)) if arr is not None and hasattr(arr, "sym") and arr.sym.get(k) is not None else None for k in range(2)]
+                        if pc[0] is None or pc[1] is None or not dag.equal(pc[0], R[i]) or not dag.equal(pc[1], T[j]):
+                            probs.append("polarCoordinates(%d,%d) is (%s, %s)" % (i, j, pc[0] is not None and dag.show(pc[0], 30), pc[1] is not None and dag.show(pc[1], 30)))
+                    if probs:
+                        break
+                if probs:
+                    break
+        if dom.oob:
+            probs.append("out-of-range access %s[%s] (length %s) at %s" % dom.oob[0])
+        if probs:
+            ck.violation("R-C17-7", "queries:%s" % probs[0].split("(")[0].split(" ")[0], site, "%s: %s" % (key, "; ".join(probs[:3])))
+        else:
+            ck.ok("R-C17-7", key, sample={"shape": key, "nodes": nr * nt})
 
 
 def main(tier):
@@ -387,6 +490,7 @@ def main(tier):
     if nct < 3:
         raise ir.AnalysisBroken("found %d PolarGrid constructors (3 confirmed by hand)" % nct)
     ck.extra["shapes"] = n_shapes
+    geometry_queries(ck, tier)
     return ck.finish(
         "The index functions of PolarGrid are interpreted from /repo's source (integers concrete, doubles erased) on every node of "
         "a family of shapes covering nr 2..12, ntheta incl. powers of two and non-powers, every split position 0..nr. The functions are "
